@@ -3,6 +3,8 @@ package service
 import (
 	"context"
 	"errors"
+	"github.com/streamingfast/bstream"
+	"github.com/streamingfast/opaque"
 
 	"github.com/streamingfast/substreams/orchestrator/plan"
 	pbssinternal "github.com/streamingfast/substreams/pb/sf/substreams/intern/v2"
@@ -65,6 +67,9 @@ func c17Request() *pbsubstreamsrpc.Request {
 	} else {
 		// the numeric dimensions are explored by FOCUS=0 (and by C12)
 		req.StartBlockNum = 5
+		if focus == 3 {
+			req.StopBlockNum = uint64(sym.Choice("stop", 3)) * 4 // 0, 4 (below the cursor block), 8
+		}
 	}
 	req.ProductionMode = sym.Choice("production", 2) == 1
 	mods := &pbsubstreams.Modules{}
@@ -109,6 +114,9 @@ func c17Request() *pbsubstreamsrpc.Request {
 					m.Inputs = append(m.Inputs, c17Input())
 				}
 			}
+		}
+		if focus == 3 {
+			m.Inputs = []*pbsubstreams.Module_Input{c17Source()}
 		}
 		if focus == 2 {
 			m.Inputs = []*pbsubstreams.Module_Input{c17Source()}
@@ -178,7 +186,28 @@ func VerifC17Request() {
 		return sym.U64("head"), nil
 	}
 	size := uint64(10)
-	details, _, err := pipeline.BuildRequestDetails(context.Background(), req, getLib, nil, getHead, size)
+	// the cursor: absent, or one of a few malformed / odd texts (FOCUS=3): every shape of
+	// text the cursor decoder distinguishes, and a well-formed cursor whose fork resolver
+	// answers anything
+	if sym.Param("FOCUS", 0) == 3 {
+		texts := []string{"c1:1:5:aa:4:bb", "c1:x:5:aa:4:bb", "c1:1:y:aa:4:bb", "c1:1:5:aa:z:bb", "c1:1:5:aa", "c2:1:5:aa:7:cc", "c3:1:5:aa:4:bb:7:cc", "c3:1:5:aa:4:bb:w:cc", "c9:1", "", ":", "c1:99:5:aa:4:bb", "c1:1:18446744073709551615:aa:4:bb", "c1:1:18446744073709551616:aa:4:bb", "c1:4:5:aa:9:bb"}
+		switch k := sym.Choice("cursor", len(texts)+2); {
+		case k == len(texts):
+			req.StartCursor = "not an opaque cursor"
+		case k < len(texts):
+			req.StartCursor = opaque.EncodeString(texts[k])
+		}
+	}
+	resolve := func(ctx context.Context, c *bstream.Cursor) (bstream.BlockRef, bstream.BlockRef, error) {
+		switch sym.Choice("resolver", 3) {
+		case 0:
+			return nil, nil, errors.New("cannot resolve")
+		case 1:
+			return nil, bstream.NewBlockRef("hh", sym.U64("current-head")), nil
+		}
+		return bstream.NewBlockRef("jj", sym.U64("junction")), bstream.NewBlockRef("hh", sym.U64("current-head")), nil
+	}
+	details, _, err := pipeline.BuildRequestDetails(context.Background(), req, getLib, resolve, getHead, size)
 	if err != nil {
 		sym.Reach("rejected-by-resolution")
 		return
